@@ -1044,8 +1044,70 @@ func ruleConnLifecycle(p *Prog, r *Out) {
 				}
 			}
 		}
-		r.check(zero && loopOK && tail, "graceful close waits for promised request streams only", p.pos(lit.Pos()), "ref==0 -> no; any HEADERS-opened stream with id <= ref -> not yet; else yes",
-			"canCloseAfterGoAway no longer means 'a GOAWAY reference exists and no request stream at or below it is still in the table': the connection either closes while promised requests are unanswered or never closes after a graceful GOAWAY")
+		refLoaded := false
+		for _, s := range lit.Body.List {
+			if as, ok := s.(*ast.AssignStmt); ok && p.text(as.Lhs[0]) == "ref" && squash(p.text(as.Rhs[0])) == "atomic.LoadUint32(&sc.closeRef)" {
+				refLoaded = true
+			}
+		}
+		r.check(!zero && refLoaded && loopOK && tail, "graceful close waits for promised request streams only", p.pos(lit.Pos()), "ref = closeRef; any HEADERS-opened stream with id <= ref -> not yet; else yes (also when ref is 0: nothing was promised)",
+			"canCloseAfterGoAway no longer means 'no request stream at or below the GOAWAY's reference is still in the table' (a reference of zero, a GOAWAY sent before any stream was accepted, must count as 'nothing promised', not as 'no GOAWAY'): the connection either closes while promised requests are unanswered or never closes after an error GOAWAY")
+		// a GOAWAY sent from the frame clause and followed by `continue` runs the test on the spot
+		if hs := p.decl("(*serverConn).handleStreams"); hs != nil {
+			sites, good := 0, 0
+			ast.Inspect(hs.Body, func(n ast.Node) bool {
+				var list []ast.Stmt
+				switch x := n.(type) {
+				case *ast.BlockStmt:
+					list = x.List
+				case *ast.CaseClause:
+					list = x.Body
+				default:
+					return true
+				}
+				for i, st := range list {
+					es, ok := st.(*ast.ExprStmt)
+					if !ok {
+						continue
+					}
+					c, ok := es.X.(*ast.CallExpr)
+					if !ok {
+						continue
+					}
+					isGA := p.calleeOf(c) == "(*serverConn).writeGoAway" && len(c.Args) == 3 && squash(p.text(c.Args[0])) != "0"
+					if p.calleeOf(c) == "(*serverConn).writeError" && strings.Contains(p.text(c), "NewGoAwayError") {
+						isGA = true
+					}
+					if !isGA {
+						continue
+					}
+					// what follows in this list: break loop, or the test
+					okHere := false
+					for _, t := range list[i+1:] {
+						if b, ok := t.(*ast.BranchStmt); ok && b.Tok == token.BREAK && b.Label != nil {
+							okHere = true
+						}
+						if ifs, ok := t.(*ast.IfStmt); ok && squash(p.text(ifs.Cond)) == "canCloseAfterGoAway()" {
+							for _, bb := range ifs.Body.List {
+								if b, ok := bb.(*ast.BranchStmt); ok && b.Tok == token.BREAK && b.Label != nil {
+									okHere = true
+								}
+							}
+						}
+					}
+					sites++
+					if okHere {
+						good++
+					}
+					r.check(okHere, "error GOAWAY site runs the close test ("+p.text(c.Args[len(c.Args)-1])+")", p.pos(c.Pos()), "writeGoAway(...); if canCloseAfterGoAway() { break loop }",
+						"the stream loop sends a GOAWAY with an error and goes on to the next frame without testing whether anything is left to wait for: the end-of-iteration test is skipped by the continue, no further frame may ever arrive, and Serve sleeps until the peer hangs up")
+				}
+				return true
+			})
+			if sites < 3 {
+				r.bad("error GOAWAY sites in the stream loop", p.pos(hs.Pos()), fmt.Sprintf("only %d GOAWAY sites with a stream reference found in the stream loop", sites))
+			}
+		}
 	} else {
 		r.undecided("canCloseAfterGoAway", "?", "closure no longer resolves")
 	}
